@@ -136,6 +136,15 @@ CHECKS = {
         "technique": SIM + "provenance oracle against the per-host ModelCache mutation log, reactive scripted responder",
         "design_ref": "DESIGN.md §5 C18",
     },
+    "C07": {
+        "text": "Seeded search over multi-host scenarios (2..5 real instances, some joining late, 1..6 services of 1..3 types, "
+                "browsers before/during/after registration, register/update/unregister/close/crash/restart at arbitrary "
+                "virtual times) x delivery schedules (per-receiver delay 0..100 ms, duplication, reordering) x exactly one "
+                "dropped datagram (position sampled, and enumerated over a fixed scenario) x the library's jitter; bounded "
+                "liveness oracle 17 s after the last change plus resolution of lookups started inside add_service.",
+        "technique": SIM + "single-loss fault enumeration/sampling, bounded-liveness oracle after faults stop",
+        "design_ref": "DESIGN.md §5 C07",
+    },
     "C05": {
         "text": "Seeded search over response-datagram histories (repeats, refreshes, goodbyes, cache-flush, re-cased names) "
                 "and clock steps around the 1 s flush window, TTL expiry and the 10 s purge, driven through the real "
